@@ -3,7 +3,8 @@
    in the theorems):
      ffmt  bits pattern : strconv.AppendFloat(nil, f, 'f', -1, bits)
      tz    instant      : offset in seconds of the process's local zone at that instant
-     jsonp blob         : printJSONData (modelled in Model/Json.v) *)
+     jsonp blob         : printJSONData (modelled in Model/Json.v: print_json efmt, efmt the 'E' float formatting;
+                          the theorems about JSON values instantiate jsonp with it) *)
 From GB Require Import Base.Prelude Base.DecText Base.GoFmt Base.Calendar.
 From GBGen Require Import Consts.
 Open Scope Z_scope.
